@@ -81,8 +81,55 @@ def oracle(c):
     return None
 
 
+def extra(ctx, res):
+    """directed family: a normalization error recorded for a field (or inside its sub-document) followed by several
+    validation rules of that field in random order -- the validation phase must not depend on what normalization recorded"""
+    import random
+    rng = random.Random(ctx["seed"] + 606)
+    n = 2000 if ctx["tier"] == "thorough" else 150 * ctx.get("scale", 1)
+    vrules = [('dependencies', 'b'), ('dependencies', ['b', 'c']), ('dependencies', {'b': [1, 2]}), ('allowed', ['q', 7]), ('min', 100), ('max', -100),
+              ('maxlength', 0), ('minlength', 9), ('regex', 'z+'), ('forbidden', ['x', 1]), ('excludes', 'c'), ('type', 'integer'), ('type', 'string'),
+              ('empty', False), ('nullable', False), ('contains', 'zz'), ('anyof', [{'type': 'boolean'}, {'min': 500}])]
+    fails = [('coerce', 'fail'), ('coerce', ['to_str', 'fail']), ('coerce', 'failrt'), ('rename_handler', 'fail'), ('coerce', ['ident', 'keyfail'])]
+    for i in range(n):
+        rs = {}
+        picks = rng.sample(vrules, rng.randrange(2, 5))
+        if rng.random() < 0.6 and not any(p[0] == 'dependencies' for p in picks):
+            picks = [rng.choice(vrules[:3])] + picks + [rng.choice([('allowed', ['q', 7]), ('minlength', 9), ('regex', 'z+'), ('forbidden', ['x', 1])])]
+        nested = rng.random() < 0.4
+        if nested:
+            inner = dict([rng.choice(fails)] + rng.sample(vrules, 2))
+            rs = dict([('type', 'dict'), ('schema', {'m': inner})] + [p for p in picks if p[0] != 'type'])
+            val = {'m': rng.choice(['x', 1, 'zz', ''])}
+        else:
+            items = [rng.choice(fails)] + picks
+            if rng.random() < 0.5:
+                rng.shuffle(items)
+            rs = dict(items)
+            val = rng.choice(['x', 'x', 'x', 1, '', 'zz', 5, [1], None])
+        schema = {'a': rs, 'b': {}, 'c': {}}
+        doc = {'a': val}
+        if rng.random() < 0.6:
+            doc['b'] = rng.choice([1, 3])
+        if rng.random() < 0.3:
+            doc['c'] = 1
+        c = {"schema": schema, "config": rng.choice([{}, {}, {"allow_unknown": True}, {"require_all": True}]), "document": doc,
+             "update": rng.random() < 0.3}
+        try:
+            d = oracle(c)
+        except cerberus.SchemaError:
+            continue
+        except _nfamily._Skip:
+            continue
+        res["cases"] += 1
+        res["nontrivial"] += 1
+        if d:
+            res["violations"].append({"signature": "api:" + d.split(" ")[0][:24], "what": "(normalization error then validation rules) " + d,
+                                      "replay": _nfamily.case_json(c)})
+
+
 def run(ctx):
-    return _nfamily.run_family(ctx, oracle, lambda d: "api:" + d.split(" ")[0][:24], use_model=False,
+    return _nfamily.run_family(ctx, oracle, lambda d: "api:" + d.split(" ")[0][:24], use_model=False, extra=extra,
                                genkws=({"p_update": 0.5}, {"max_depth": 4, "nested_bias": True, "p_update": 0.3}, {"normalization": False},
                                        {"purge_bias": True, "nested_bias": True, "of_rules": False}),
                                n_quick=3200,
